@@ -338,7 +338,7 @@ def check_dataset(ctx, case, small):
         ds = cd.CenteredInstanceDataset(crop_hw=(case["crop"], case["crop"]), confmap_head_config=head, **common)
     ctx.count("datasets:" + cls)
     ms = case["max_stride"]
-    for idx in range(len(ds)):
+    for idx in [i for _epoch in range(2) for i in range(len(ds))]:  # two epochs: registration must also hold on a re-read
         s = ds[idx]
         ctx.count("dataset_samples")
         if cls == "centered":
